@@ -13,6 +13,7 @@ import traceback
 from . import build, run
 
 ROOT = build.ROOT
+OUT = build.OUT
 DEFAULT_SEED = 20260928
 NPROC = int(os.environ.get('VERIF_NPROC', '0')) or min(16, os.cpu_count() or 4)
 
@@ -55,6 +56,8 @@ class Ledger:
     A signature `sig` (dict) matches an entry when every key of entry.match agrees:
       'opts'   : dict -> every name=value must be in sig['opts']
       'opts_any': list of dicts -> at least one dict is contained in sig['opts']
+      'opts_has': list of option names that must all be set in sig['opts'] (any value)
+      'detail.X': matched against sig['_detail']['X'] (equal / 're:' regex / list membership)
       other    : equal, or (string starting with 're:') regex search on str(sig[key]),
                  or (list) membership
     Only status == "known" entries match; "fixed" entries suppress nothing.
@@ -86,6 +89,13 @@ class Ledger:
                 if k == 'opts':
                     so = sig.get('opts') or {}
                     if not all(str(so.get(n)) == str(v) for n, v in want.items()):
+                        ok = False
+                elif k.startswith('detail.'):
+                    if not self._m(want, (sig.get('_detail') or {}).get(k[7:])):
+                        ok = False
+                elif k == 'opts_has':
+                    so = sig.get('opts') or {}
+                    if not all(n in so for n in want):
                         ok = False
                 elif k == 'opts_any':
                     so = sig.get('opts') or {}
@@ -162,7 +172,7 @@ class Ctx:
         key = sha({k: v for k, v in sig.items() if not k.startswith('_')})
         if any(k == key for k, _ in self.violations):
             return 'dup'
-        d = os.path.join(ROOT, 'replays', self.prop)
+        d = os.path.join(OUT, 'replays', self.prop)
         os.makedirs(d, exist_ok=True)
         path = os.path.join(d, key[:16] + '.json')
         rec = {'property': self.prop, 'signature': sig, 'replay': replay}
@@ -190,8 +200,8 @@ class Ctx:
         cov.update(self.extra)
         ev = {'property_id': self.prop, 'tier': self.tier, 'seed': self.seed, 'level': self.level, 'coverage': cov,
               'assumptions': self.assumptions, 'wall_s': round(wall, 2), 'violations': len(self.violations)}
-        os.makedirs(os.path.join(ROOT, 'evidence'), exist_ok=True)
-        with open(os.path.join(ROOT, 'evidence', self.prop + '.json'), 'w') as f:
+        os.makedirs(os.path.join(OUT, 'evidence'), exist_ok=True)
+        with open(os.path.join(OUT, 'evidence', self.prop + '.json'), 'w') as f:
             json.dump(ev, f, indent=1, default=str)
         print('%s tier=%s seed=%d evaluations=%d nontrivial=%d known_hits=%d violations=%d wall=%.1fs' % (
             self.prop, self.tier, self.seed, self.evaluations, len(self.nontrivial), sum(self.known_hits.values()),
